@@ -188,7 +188,7 @@ def _family(client_async: bool):
         scn = CS.draw_scenario(w.ch, cancel=client_async, max_tracers=3)
         c09.normalise_script(scn)
         w.scenario = dict(scn, client_async=client_async)
-        obs = CS.run_scenario(w, scn, client_async)
+        obs = CS.run_scenario(w, scn, client_async, allow_stopiter=True)
         judge(w, scn, obs, client_async)
     return fam
 
